@@ -214,6 +214,14 @@ Theorem C16_op_unknown env op u args sz :
   ¬ In op model_op_branches → get_op_output_unit env op u args sz = Err EValue.
 Proof. exact (op_unknown env op u args sz). Qed.
 
+(** np.power / ** with a scalar exponent p: unit^p on multiplicative units (degree-p homogeneous:
+    covariance is [C16_class_covariant_homog_unary] with k = p); offset units are refused *)
+Theorem C16_power_units env u p :
+  (p ≠ q1 → qz p = false →
+     pow_units env u p = if is_mult env u then Ok (uc_pow u p) else Err EOffset)
+  ∧ pow_units env u q1 = Ok u ∧ pow_units env u qc0 = Ok ∅.
+Proof. exact (conj (pow_units_spec env u p) (pow_units_trivial env u)). Qed.
+
 (** * [convert_arg]: bare numbers are accepted iff the target is dimensionless or the number is
     zero / NaN; incompatible quantities are DimensionalityErrors; bools and None pass *)
 Theorem C16_convert_arg_rule env t u zn pre a :
